@@ -34,6 +34,9 @@ func init() {
 	if os.Getenv("VERIF_HARNESS") != "C32" {
 		return
 	}
+	if repo := os.Getenv("VERIF_C32_EXTRACT"); repo != "" {
+		os.Exit(verifC32Extract(repo)) // lock-region skeleton of the upload-session handlers (zz_verif_c32_extract.go)
+	}
 	verifC32Main()
 	os.Exit(0)
 }
@@ -458,8 +461,10 @@ func verifC32Script(tok string) []*verifC3xFault {
 }
 
 // verifC32MutexBlocked counts the upload-session handlers that are parked on a mutex (the session lock).
+var verifC32StackBuf = make([]byte, 1<<20)
+
 func verifC32MutexBlocked() int {
-	buf := make([]byte, 4<<20)
+	buf := verifC32StackBuf
 	n := runtime.Stack(buf, true)
 	cnt := 0
 	for _, g := range strings.Split(string(buf[:n]), "\n\n") {
@@ -542,10 +547,10 @@ func (s *verifC32State) par(reqs []string) string {
 			mu.Lock()
 			acc := gated + finished
 			mu.Unlock()
-			if acc+verifC32MutexBlocked() >= i+1 {
+			if acc >= i+1 || acc+verifC32MutexBlocked() >= i+1 {
 				break
 			}
-			time.Sleep(200 * time.Microsecond)
+			time.Sleep(500 * time.Microsecond)
 		}
 	}
 	close(open)
